@@ -665,6 +665,7 @@ func runC12(c *vk.Ctx) {
 		"a sample of the same damages applied to each retained snapshot that is NOT the newest must leave OpenReader and OpenWriter on the intact newest one")
 	c12RoundTrip(c, c.Pick(1500, 60000))
 	c12RoundTripAlign(c, c.Pick(5, 1))
+	c12RoundTripDir(c, c.Pick(60, 1500))
 	c12Decoder(c)
 	c12Rejection(c)
 	if !c.Quick() {
